@@ -33,28 +33,29 @@ c.Store(…)`), or through a pointer field of a shallow per-request copy.  Only 
 itself, or memory the function freshly allocated on it, counts as `copy` and is excluded.  A new cache, counter,
 `sync.Once`, `atomic.Value` or `sync.Map` consulted on the lookup path breaks this obligation. -/
 theorem lookup_writes_pinned :
-    lookupWrites.filter (fun w => w.2.1 != "copy") = lookupSharedWrites := by decide
+    lookupWriteKinds.filter (fun w => w.1 != "copy") = lookupSharedWrites := by decide
 
 /-- `HTTPProxy.ServeHTTP` assigns nothing through the target it was handed; the only `Target` methods it calls
 are on the analysed lookup path; the only other method it calls through the target that is not read-only is the
 response-time metric; the only reference it takes out of the target is the transport it hands the request to. -/
 theorem proxy_does_not_write_target :
     proxyTargetWrites = [] ∧ proxyTargetMethods.all (fun m => lookupReach.contains m) = true ∧
-    proxyTargetCalls = ["t.Timer.Observe"] ∧ proxyTargetAliases = ["tr := t.Transport"] := by decide
+    proxyTargetCalls = ["target.Timer.Observe"] ∧ proxyTargetAliases = ["target.Transport"] := by decide
 
-/-- `rndPicker` is the model's `rndPick`: it indexes the ring with `randIntn(len(ring))`, and `randIntn` draws
+/-- The function registered as `route.Picker["rnd"]` is the model's `rndPick`: whatever helpers it goes through, it draws
 from math/rand's process-wide generator through the package's TOP-LEVEL functions only (which are safe for
 concurrent use: the generator sits behind its own lock) — the package holds no generator of its own
 (`*rand.Rand`, `rand.Source`: not safe for concurrent use), and `rand` is math/rand. -/
 theorem rnd_uses_locked_generator :
-    routeOwnGenerators = [] ∧ routeRandImports = ["math/rand"] ∧ rndPickerCalls = ["len", "randIntn"] ∧
-    randIntnCalls.contains "rand.Intn" = true ∧
-    randIntnCalls.all (fun c => ["rand.Intn", "rand.Seed", "rndOnce.Do", "time.Now", "time.Now().UnixNano"].contains c) = true := by
+    routeOwnGenerators = [] ∧ routeRandImports = ["math/rand"] ∧
+    rndPickerCalls.contains "rand.Intn" = true ∧
+    rndPickerCalls.all (fun c => ["len", "rand.Intn", "rand.Seed", "var:sync.Once.Do", "time.Now", "time.Now().UnixNano"].contains c) = true := by
   decide
 
-/-- The functions the write set was collected from still include the anchors of the property. -/
+/-- The functions the write set was collected from still include the anchors of the property (exported entry
+points by name, the two strategies by their role in `route.Picker`). -/
 theorem lookup_reach_covers_anchors :
-    ["GlobCache.Get", "Table.Lookup", "Table.lookup", "Table.matchingHosts", "rrPicker", "rndPicker", "randIntn"].all
-      (fun f => lookupReach.contains f) = true := by decide
+    ["GlobCache.Get", "Table.Lookup", "Table.LookupHost", "Target.BuildRedirectURL"].all
+      (fun f => lookupReach.contains f) = true ∧ pickersInReach = true := by decide
 
 end Fabio.Props.C06Facts
